@@ -628,3 +628,19 @@ Proof.
   - exact I.
   - exact I.
 Qed.
+
+(* ---------- deferred unlock: a panicking handler does not keep the Listener mutex ---------- *)
+Lemma deferred_unlock_serves_all os : served true false os = List.length os.
+Proof. induction os as [|o r IH]; [reflexivity|]. cbn. destruct o; cbn; rewrite IH; reflexivity. Qed.
+
+Lemma held_serves_none d os : served d true os = 0.
+Proof. destruct os; reflexivity. Qed.
+
+Lemma plain_unlock_blocks_after_panic pre post :
+  ~ In Panics pre -> served false false (pre ++ Panics :: post) = S (List.length pre).
+Proof.
+  induction pre as [|o r IH]; intro NP.
+  - cbn. rewrite held_serves_none. reflexivity.
+  - destruct o; [|exfalso; apply NP; left; reflexivity].
+    cbn. f_equal. apply IH. intro H. apply NP. right. exact H.
+Qed.
